@@ -24,8 +24,16 @@ that recursive walk (walk_deep), and traversal_deep_order enumerates every tree 
 on which walking level by level and walking subtree by subtree give different sequences.
 
 Documented preconditions only: ``add``/``insert``/``setChildren`` take parentless objects that do not contain the
-target (the API does not re-parent), ``remove`` takes an actual child.  Raw list methods ``append``/``extend`` are out
-of scope.  Apart from ``generationNum`` (an unbounded symbolic Int), insert indices and sort keys, the solver's role
+target (the API does not re-parent), ``remove`` takes an actual child (a ``remove`` of a non-child has to be refused
+without effect: edit_step_remove, see KNOWN_DEFECT_refused_remove_half_applied).  Raw list methods ``append``/``extend``
+are out of scope, and so are the by-location / by-name tables of a Core after the bare inherited ``Core.remove`` /
+``removeAll`` / ``setChildren`` (armi's own callers repair the tables by hand; ``Core.removeAssembly`` is the public way).
+
+Objects TAKEN OUT: one common obligation (check_taken_out: no parent, no cell of the location left in a grid, same
+indices, former parent's tree and tables without it) after every public call that takes children out, at every level
+whose children are located in a grid of the parent: generic nodes (edit_step_remove, edit_step_set_children), blocks
+with a pin grid and assemblies (take_out_located_children: remove, removeAll, setChildren, replaceBlockWithBlock,
+adjustResolution), cores and the spent fuel pool (core_edit_step: removeAssembly in all its variants, pool.remove).  Apart from ``generationNum`` (an unbounded symbolic Int), insert indices and sort keys, the solver's role
 here is exhaustive enumeration of states / operands / predicate masks; the evidence reports it as such.
 """
 import copy
@@ -39,6 +47,7 @@ from symx.engine import harness
 from armi.reactor import assemblies, blocks, components, composites, grids
 from armi.reactor.flags import Flags
 from armi.reactor.grids.locations import IndexLocation
+from armi.reactor.spentFuelPool import SpentFuelPool
 
 from harness import _build
 
@@ -164,7 +173,7 @@ def check_forest(ctx, F, tag):
         for j, q in enumerate(objs):
             okIn &= (q in o) == (j in F.kids[i])
         for pos, k in enumerate(F.kids[i]):
-            okIndex &= o.index(objs[k]) == pos and o[pos] is objs[k]
+            okIndex &= pos < len(o) and o[pos] is objs[k] and o.index(objs[k]) == pos
     ctx.check(tag + ": every object's parent is the one the model says", okParent)
     ctx.check(tag + ": child lists are the model's, in order", okList)
     ctx.check(tag + ": len() agrees", okLen)
@@ -206,13 +215,13 @@ def check_deep(ctx, o, tag):
               len(ids) == len(set(ids)) == len(naive) and set(ids) == {id(x) for x in naive})
     pos = {id(x): k for k, x in enumerate(got)}
     order = True
-    for x in naive:
-        if x.parent is not o:
-            order &= pos[id(x.parent)] < pos[id(x)]
-        sibs = list(x.parent)
-        k = [s is x for s in sibs].index(True)
-        if k > 0:
-            order &= pos[id(sibs[k - 1])] < pos[id(x)]
+    for lister in [o] + naive:        # (the LISTER of an object, not its parent pointer: check_forest compares the two)
+        sibs = list(lister)
+        for k, x in enumerate(sibs):
+            if lister is not o:
+                order &= pos.get(id(lister), len(got)) < pos.get(id(x), -1)
+            if k > 0:
+                order &= pos.get(id(sibs[k - 1]), len(got)) < pos.get(id(x), -1)
     ctx.check(tag + ": deep is in child order (parents first, siblings in list order)", order)
     if all(len(gc) == 0 for c in o for gc in c):
         ctx.check(tag + ": deep = children then grandchildren (documented example)",
@@ -321,41 +330,64 @@ def edit_step_add_insert(ctx, op, N):
     check_deep(ctx, objs[F.root(t)], op)
 
 
-@harness("C01", bounds="every forest on N=4 (thorough 5) generic Composites x (remove: every child from its parent / "
-                       "removeAll: every target node)", stubs=STUBS, max_paths=20000,
+# Candidate defect (reported by an independent engineer, confirmed here; kept out of the green check by the flag):
+# Composite.remove(x) on a composite that does NOT list x clears x.parent and detaches x's location BEFORE
+# list.remove raises ValueError, so the refused call leaves x listed by its real parent with parent None and a location
+# outside that parent's grid ("a parent lists each child ... and is that child's parent" no longer holds).
+# Repro: p, q, x = Composite("p"), Composite("q"), Composite("x"); p.add(x); q.remove(x) -> ValueError; x in p is True
+# but x.parent is None.  While the flag is set only removals from the actual parent are driven;
+# VERIF_SHOW_KNOWN_DEFECTS=1 shows the violations.
+_HIDE = os.environ.get("VERIF_SHOW_KNOWN_DEFECTS", "") == ""
+KNOWN_DEFECT_refused_remove_half_applied = False  # repaired in /repo (fix: 9d5b529)
+
+
+@harness("C01", bounds="every forest on N=4 (thorough 5) generic Composites (every node owns a grid, every child is "
+                       "located in its parent's grid) x (remove: every node, from its parent -- or from any OTHER node, "
+                       "itself included, which must be refused without effect / removeAll: every target node)",
+         stubs=STUBS, max_paths=20000,
          instances={"quick": [dict(op="remove", N=NQ), dict(op="removeAll", N=NQ)],
                     "thorough": [dict(op="remove", N=NT), dict(op="removeAll", N=NT)]})
 def edit_step_remove(ctx, op, N):
     P = declare_forest(ctx, N)
-    tS = ctx.int("node", 0, N - 1)     # remove: the child to take out (of its parent); removeAll: the target
+    tS = ctx.int("node", 0, N - 1)     # remove: the child to take out; removeAll: the target
+    fS = ctx.int("from", -1, N - 1)    # remove: -1 = out of its parent (the documented use), else out of that node
+    if op != "remove" or (KNOWN_DEFECT_refused_remove_half_applied and _HIDE):
+        ctx.assume(fS == -1)
     F = build_forest(P, N)
     objs = F.objs
+    refusedCase = False
     if op == "remove":
-        c = int(tS)
-        ctx.assume(F.par[c] is not None)      # documented precondition: an actual child of the object it is removed from
-        t = F.par[c]
-        gone = [c]
+        c, f = int(tS), int(fS)
+        if f == -1:
+            ctx.assume(F.par[c] is not None)      # documented use: an actual child of the object it is removed from
+            t = F.par[c]
+            gone = [c]
+        else:
+            ctx.assume(f != F.par[c])             # (its parent: that is the case -1)
+            t, gone, refusedCase = f, [], True
     else:
         t = int(tS)
         gone = list(F.kids[t])
-    locBefore = {g: (objs[g].spatialLocator.i, objs[g].spatialLocator.j, objs[g].spatialLocator.k) for g in gone}
+    locBefore = snapshot_locations(objs, gone)
     subBefore = {g: F.subtree(g) for g in gone}
-    if op == "remove":
+    if refusedCase:
+        refused = False
+        try:
+            objs[t].remove(objs[c])
+        except (ValueError, LookupError, RuntimeError):
+            refused = True
+        ctx.check("removing an object from a node that does not list it is refused", refused)
+        # ... and leaves everything as it was: the model is unchanged, check_forest / check_grids below say the rest
+    elif op == "remove":
         objs[t].remove(objs[gone[0]])
     else:
         objs[t].removeAll()
     for g in gone:
         F.detach(g)
-    detached = all(objs[g].parent is None for g in gone)
-    if ctx.canary:
-        detached = AND(detached, NOT(_canary_state(ctx, P, [tS == 1])))
-    ctx.check("removed objects have no parent", detached)
-    ctx.check("removed objects have a detached location (no grid) with the same indices",
-              all(objs[g].spatialLocator.grid is None and
-                  (objs[g].spatialLocator.i, objs[g].spatialLocator.j, objs[g].spatialLocator.k) == locBefore[g]
-                  for g in gone))
+    check_taken_out(ctx, F, gone, t, locBefore, op, bad=_canary_state(ctx, P, [tS == 1]))
     ctx.check("a removed object keeps its own subtree", all(F.subtree(g) == subBefore[g] for g in gone))
     check_forest(ctx, F, op)
+    check_grids(ctx, F, op)
     for r in set([F.root(t)] + gone):
         check_deep(ctx, objs[r], op)
 
@@ -395,6 +427,7 @@ def edit_step_set_children(ctx, N, maxlen):
     ctx.check("the children are exactly the given items in the given order",
               same_objs(list(objs[t]), [objs[i] for i in items]))
     check_forest(ctx, F, "setChildren")
+    check_grids(ctx, F, "setChildren")
     for r in set([F.root(t)] + dropped):
         check_deep(ctx, objs[r], "setChildren")
 
@@ -923,8 +956,8 @@ def mk_comp(name):
     return components.Hexagon("liner", "HT9", Tinput=25.0, Thot=400, op=15.3, ip=15.2, mult=1.0)
 
 
-def mk_typed_block(typ, present):
-    b = blocks.HexBlock(typ, height=10.0)
+def mk_typed_block(typ, present, height=10.0):
+    b = blocks.HexBlock(typ, height=height)
     for n in present:
         b.add(mk_comp(n))
     b.setType(typ)
@@ -1390,17 +1423,21 @@ def _copy_then_edit_typed(ctx, D, rS, biS, xS, op, how):
 # the generic unpickle step each have to re-link "grid -> owner" and "child location -> parent's grid" themselves.
 
 
-def give_pin_grid(b):
+def give_pin_grid(b, singleByIndex=False):
     """The layout Block.autoCreateSpatialGrids produces (not called here: it needs a wire component for the pitch):
     a hex grid owned by the block, ONE multi-cell location shared by the components of multiplicity > 1, a coordinate
-    location at the centre for those of multiplicity 1."""
+    location at the centre for those of multiplicity 1 (singleByIndex: the grid's own cell (0, 0, 0) instead, the way a
+    blueprint pin lattice places a single component)."""
     g = grids.HexGrid.fromPitch(1.0, numRings=0, armiObject=b)
     b.spatialGrid = g
     multi = grids.MultiIndexLocation(grid=g)
     for i, j in ((0, 0), (1, 0), (0, 1)):
         multi.append(g[i, j, 0])
     for c in b:
-        c.spatialLocator = multi if c.getDimension("mult") > 1 else grids.CoordinateLocation(0.0, 0.0, 0.0, g)
+        if c.getDimension("mult") > 1:
+            c.spatialLocator = multi
+        else:
+            c.spatialLocator = g[0, 0, 0] if singleByIndex else grids.CoordinateLocation(0.0, 0.0, 0.0, g)
 
 
 def loc_cells(loc):
@@ -1434,6 +1471,31 @@ def check_grids(ctx, F, tag):
         ctx.check(tag + ": no cell of a parentless object's multi-cell location lives in a grid",
                   all(l.grid is None for i, o in enumerate(objs) if F.par[i] is None
                       for l in loc_cells(o.spatialLocator)))
+
+
+def snapshot_locations(objs, idxs):
+    """kind and indices of the location (and of every cell of a multi-cell location) of the given objects"""
+    return {g: [(type(l).__name__, l.i, l.j, l.k) for l in loc_cells(objs[g].spatialLocator)] for g in idxs}
+
+
+def check_taken_out(ctx, F, gone, formerParent, locBefore, tag, bad=False):
+    """THE statement about objects taken out of the model, whatever public call took them out (remove, removeAll,
+    setChildren without them, a replacement of the parent's content, a re-meshing of the parent, a discharge ...):
+    no parent; a detached location -- neither the location nor any cell of a multi-cell location lives in a grid any
+    more -- of the same kind and with the same indices; and the former parent neither lists nor finds them.
+    `F` is the model AFTER the operation; `bad` is the canary's rare corner."""
+    objs = F.objs
+    ok = all(objs[g].parent is None and all(l.grid is None for l in loc_cells(objs[g].spatialLocator)) for g in gone)
+    if ctx.canary:
+        ok = AND(ok, NOT(bad))
+    ctx.check(tag + ": objects taken out have no parent and a detached location (no cell of it lives in a grid)", ok)
+    ctx.check(tag + ": the detached location is of the same kind and keeps its indices",
+              snapshot_locations(objs, gone) == {g: locBefore[g] for g in gone})
+    t = objs[formerParent]
+    below = [t] + walk_pre(objs[F.root(formerParent)])
+    ctx.check(tag + ": the former parent (and its whole tree) no longer lists or finds the objects taken out",
+              all(objs[g] not in t and not any(x is objs[g] for x in below) and
+                  not any(v is objs[g] for v in t.childrenByLocator.values()) for g in gone))
 
 
 @harness("C01", bounds="typed tree HexAssembly (axial grid) > 1..2 HexBlocks (fuel+clad+duct / fuel+duct), each block "
@@ -1529,6 +1591,233 @@ def _copy_gridded_typed(ctx, nbS, pins, wS, eS, kS, how):
         check_deep(ctx, objs[x], tag)
 
 
+# ---------------------------------------------------------------------------
+# (8) every public way of TAKING CHILDREN OUT of a parent that locates its children in a grid of its own
+#
+# "An object taken out of the model has no parent and a detached location" speaks about the object, not about the call
+# that took it out.  The blocks of the typed edit steps above carry no pin grid, so there a component's location is
+# "detached" before and after; here every block may own a pin grid (symbolic), its components sit in it (one shared
+# multi-cell location; a coordinate in the grid or a cell of it for the single ones), and EVERY call of the public
+# API through which components leave a block, or blocks an assembly, is one step: remove, removeAll, setChildren,
+# Block.replaceBlockWithBlock (the block's content is replaced by copies of another block's), Assembly.adjustResolution
+# (blocks are replaced by shorter copies of themselves).  check_taken_out is the one common obligation.
+
+# Candidate defect (found while writing this; kept out of the green check by the flag): Block.replaceBlockWithBlock
+# deep-copies the replacement block and hands the COPY's components to self with setChildren, without touching their
+# locations.  If the replacement block has a pin grid, the new components of self are located in the grid of the hidden
+# temporary block (which also still lists them as its children): child.spatialLocator.grid.armiObject is not
+# child.parent, self.spatialGrid does not locate self's own children, and global coordinates of the pins are computed
+# relative to a parentless throw-away block.  Repro: b, rep = two HexBlocks with components; rep.spatialGrid =
+# HexGrid.fromPitch(1.0, armiObject=rep); rep's components located at rep.spatialGrid[0, 0, 0];
+# b.replaceBlockWithBlock(rep) -> b[0].spatialLocator.grid.armiObject is neither b nor rep, and b[0] in that object.
+# While the flag is set the replacement block carries no pin grid; VERIF_SHOW_KNOWN_DEFECTS=1 shows the violations.
+KNOWN_DEFECT_replace_block_keeps_foreign_grid = False  # recorded in known_findings.jsonl
+
+TAKE_OUT_OPS = ("Block.remove", "Block.removeAll", "Block.setChildren", "Block.replaceBlockWithBlock",
+                "Assembly.remove", "Assembly.removeAll", "Assembly.setChildren", "Assembly.adjustResolution")
+
+
+def _nsub(n, maxlen):
+    return len(_sublists(list(range(n)), maxlen))
+
+
+def block_shape(b):
+    """what a copy of a block must share with it once both have been (re)named by their assemblies"""
+    return (type(b).__name__, b.getType(), [(type(c).__name__, c.name) for c in b])
+
+
+def adopt_new_subtree(F, top, parent=None, pos=None):
+    """register an object the operation created (and everything below it) in the model, as `parent`'s child"""
+    ti = F.new(top)
+    note_typed(F, top, "fuel")
+    if parent is not None:
+        F.attach(parent, ti, pos)
+    for c in top:
+        adopt_new_subtree(F, c, ti)
+    return ti
+
+
+@harness("C01", bounds="typed tree HexAssembly (axial grid) > 1..2 HexBlocks (fuel+clad+duct / fuel+duct), each block "
+                       "with or without a PIN GRID of its own (symbolic Bools; components located in it by one shared "
+                       "multi-cell location; the single component at a coordinate of the grid or on a cell of it, "
+                       "symbolic) x ONE call that takes children out, operands symbolic: Block.remove (any component) / "
+                       "Block.removeAll / Block.setChildren (every ordered selection of <= 2 (thorough 3) of children + "
+                       "a fresh component) / Block.replaceBlockWithBlock (replacement: one of two other blocks, with or "
+                       "without a pin grid) / Assembly.remove (any block) / Assembly.removeAll / Assembly.setChildren "
+                       "(selections of blocks + a fresh block with or without pin grid) / Assembly.adjustResolution "
+                       "(every subset of the blocks is split in two by the reference mesh)", stubs=STUBS,
+         max_paths=40000,
+         instances={"quick": [dict(op=o, maxlen=2) for o in TAKE_OUT_OPS],
+                    "thorough": [dict(op=o, maxlen=3) for o in ("Block.setChildren", "Assembly.setChildren")]})
+def take_out_located_children(ctx, op, maxlen):
+    nbS = ctx.int("nblocks", 1, 2)
+    pins = [ctx.bool("block0 has a pin grid"), ctx.bool("block1 has a pin grid")]
+    cellS = ctx.bool("single components sit on a cell of the pin grid (else at a coordinate of it)")
+    inS = ctx.bool("the incoming block (replacement / fresh block) has a pin grid")
+    bS = ctx.int("block", 0, 1)
+    xS = ctx.int("operand", 0, max(3, _nsub(4, maxlen) - 1))
+    nb = int(nbS)
+    F = build_typed(dict(nb=nb, t0=0, m0=[True, True, True], m1=[True, True]))
+    objs = F.objs
+    a = objs[0]
+    for k, bi in enumerate(F.kids[0]):
+        if pins[k]:                     # forks
+            give_pin_grid(objs[bi], singleByIndex=bool(cellS))
+    incomingGrid = op in ("Block.replaceBlockWithBlock", "Assembly.setChildren")
+    if not incomingGrid:
+        ctx.assume(NOT(inS))
+    elif op == "Block.replaceBlockWithBlock" and KNOWN_DEFECT_replace_block_keeps_foreign_grid and _HIDE:
+        ctx.assume(NOT(inS))
+    rare = AND(nbS == 2, pins[0], NOT(pins[1]))
+    if op.startswith("Block."):
+        ctx.assume(bS < nb)
+        t = F.kids[0][int(bS)]
+        b = objs[t]
+        kids = list(F.kids[t])
+        locBefore = snapshot_locations(objs, kids)
+        if op == "Block.remove":
+            ctx.assume(xS < len(kids))
+            gone = [kids[int(xS)]]
+            b.remove(objs[gone[0]])
+            F.detach(gone[0])
+            bad = AND(rare, bS == 0, xS == 2)
+        elif op == "Block.removeAll":
+            ctx.assume(xS == 0)
+            gone = kids
+            b.removeAll()
+            for g in gone:
+                F.detach(g)
+            bad = AND(rare, bS == 0)
+        elif op == "Block.setChildren":
+            f = fresh_comp(F, "bond")
+            options = _sublists(kids + [f], maxlen)
+            ctx.assume(xS < len(options))
+            items = options[int(xS)]
+            b.setChildren([objs[i] for i in items])
+            gone = [k for k in kids if k not in items]
+            for k in kids:
+                F.detach(k)
+            for i in items:
+                F.attach(t, i)
+            ctx.check(op + ": the children are the given items in the given order",
+                      same_objs(list(b), [objs[i] for i in items]))
+            bad = AND(rare, bS == 0, xS == 5)
+        else:
+            ctx.assume(xS <= 1)
+            ri = fresh_block(F, *(("shield", ("fuel", "duct")), ("plenum", ("clad",)))[int(xS)])
+            rep = objs[ri]
+            if inS:                     # forks
+                give_pin_grid(rep, singleByIndex=bool(cellS))
+            known = list(objs)
+            b.replaceBlockWithBlock(rep)
+            gone = kids
+            for k in kids:
+                F.detach(k)
+            ctx.check(op + ": the block's content is a COPY of the replacement's (same component types and names in "
+                           "order; no object of the replacement, no former child, each new)",
+                      [(type(c).__name__, c.name) for c in b] == [(type(c).__name__, c.name) for c in rep] and
+                      not any(c is o for c in b for o in known) and len({id(c) for c in b}) == len(b))
+            for c in list(b):
+                if not any(c is o for o in known):
+                    adopt_new_subtree(F, c, t)
+                    note_typed(F, c, c.name)
+            bad = AND(rare, bS == 0, xS == 1)
+    else:
+        t = 0
+        kids = list(F.kids[0])
+        locBefore = snapshot_locations(objs, kids)
+        if op == "Assembly.remove":
+            ctx.assume(AND(bS < nb, xS == 0))
+            gone = [kids[int(bS)]]
+            a.remove(objs[gone[0]])
+            F.detach(gone[0])
+            bad = AND(rare, bS == 0)
+        elif op == "Assembly.removeAll":
+            ctx.assume(AND(bS == 0, xS == 0))
+            gone = kids
+            a.removeAll()
+            for g in gone:
+                F.detach(g)
+            bad = rare
+        elif op == "Assembly.setChildren":
+            ctx.assume(bS == 0)
+            ni = fresh_block(F)
+            if inS:                     # forks
+                give_pin_grid(objs[ni], singleByIndex=bool(cellS))
+            options = _sublists(kids + [ni], maxlen)
+            ctx.assume(xS < len(options))
+            items = options[int(xS)]
+            a.setChildren([objs[i] for i in items])
+            gone = [k for k in kids if k not in items]
+            for k in kids:
+                F.detach(k)
+            for i in items:
+                F.attach(0, i)
+            ctx.check(op + ": the blocks are the given items in the given order",
+                      same_objs(list(a), [objs[i] for i in items]))
+            bad = AND(rare, xS == 3)
+        else:
+            # reference mesh: block k keeps its height (10) or is matched by two reference blocks of 5 + 5
+            ctx.assume(AND(bS == 0, xS < 2 ** nb))
+            split = [bool(int(xS) >> k & 1) for k in range(nb)]
+            ref = assemblies.HexAssembly("fuel")
+            ref.spatialGrid = grids.AxialGrid.fromNCells(2 * nb)
+            ref.spatialGrid.armiObject = ref
+            for k in range(nb):
+                for h in ((5.0, 5.0) if split[k] else (10.0,)):
+                    ref.add(mk_typed_block("fuel", ("fuel", "clad", "duct"), height=h))
+            shapes = [block_shape(objs[k]) for k in kids]
+            known = list(objs)
+            a.adjustResolution(ref)
+            gone = [k for k, sp in zip(kids, split) if sp]
+            for k in kids:
+                F.detach(k)
+            now, pos, okNew = list(a), 0, len(a) == nb + sum(split)
+            for k, sp, sh in zip(kids, split, shapes):
+                if not okNew:
+                    break
+                if not sp:
+                    okNew &= now[pos] is objs[k]
+                    F.attach(0, k)
+                    pos += 1
+                else:
+                    for x in now[pos:pos + 2]:
+                        okNew &= not any(x is o or any(c is o for c in x) for o in known) and block_shape(x) == sh and \
+                            x.getHeight() == 5.0 and (x.spatialGrid is not None) == (objs[k].spatialGrid is not None)
+                        if okNew:
+                            adopt_new_subtree(F, x, 0)
+                    pos += 2
+            ctx.check(op + ": a block matched by the reference mesh stays; a block split by it is replaced, in place, by "
+                           "two new blocks of the same make-up (own components, own pin grid if it had one)", okNew)
+            bad = AND(rare, xS == 1)
+    check_taken_out(ctx, F, gone, t, locBefore, op, bad)
+    check_forest(ctx, F, op)
+    check_grids(ctx, F, op)
+    check_typed_extras(ctx, F, op)
+    for r in [0] + gone:
+        check_deep(ctx, objs[r], op)
+
+
+# Candidate defect (reported by an independent engineer, confirmed here; kept out of the green check by the flag):
+# ExcoreCollection is a dict subclass whose __getstate__ / __deepcopy__ handle only the instance __dict__, so
+# copy.deepcopy(reactor).excore is EMPTY although the copied reactor has its SpentFuelPool child (pickle keeps the
+# entries).  Consequence: on a deep-copied reactor, Core.removeAssembly with assembly tracking finds "no spent fuel
+# pool" and drops the discharged assembly.  Repro: r = Reactor(...); r.add(SpentFuelPool("sfp"));
+# dict(copy.deepcopy(r).excore) == {} while dict(pickle.loads(pickle.dumps(r)).excore) has 'sfp'.
+# While the flag is set the lookup is not examined after deepcopy; VERIF_SHOW_KNOWN_DEFECTS=1 shows the violations.
+KNOWN_DEFECT_excore_table_lost_by_deepcopy = False  # repaired in /repo (fix: c937d9d)
+
+
+def add_pool(r):
+    """a spent fuel pool (ex-core structure with a grid of its own) as a second child of the reactor"""
+    sfp = SpentFuelPool("sfp")
+    g = grids.CartesianGrid.fromRectangle(50.0, 50.0, numRings=2)
+    g.armiObject = sfp
+    sfp.spatialGrid = g
+    r.add(sfp)
+    return sfp
+
+
 def shape_rc(o):
     """shape with the names of Reactor / Core objects left out (their __deepcopy__ appends '-copy' on purpose)"""
     nm = None if type(o).__name__ in ("Reactor", "Core") else o.name
@@ -1543,8 +1832,10 @@ def copy_core_and_reactor(ctx, how):
     nS = ctx.int("nassemblies", 1, 2)
     wS = ctx.int("what", 0, 3)
     pS = ctx.bool("blocks have a pin grid")
+    sS = ctx.bool("the reactor has a spent fuel pool")
     cells = [(0, 0), (1, 0)][:int(nS)]
     r, core, assems = _build.mk_core(cells, nblocks=1)
+    sfp = add_pool(r) if sS else None
     if pS:
         for x in assems:
             for y in x:
@@ -1569,6 +1860,16 @@ def copy_core_and_reactor(ctx, how):
     if what in ("assembly", "block"):
         ctx.check("the copy's own location is detached from the original's grid", cp.spatialLocator.grid is None)
     c2 = cp.core if what == "reactor" else (cp if what == "core" else None)
+    if what == "reactor":
+        # the reactor's by-name table of its ex-core children is a lookup like reactor.core: it has to answer with the
+        # copy's own children
+        pools = [x for x in cp if isinstance(x, SpentFuelPool)]
+        ctx.check("the copied reactor has a spent fuel pool child iff the original has one", len(pools) == (1 if sS else 0))
+        if not (KNOWN_DEFECT_excore_table_lost_by_deepcopy and _HIDE and how == "deepcopy"):
+            ctx.check("reactor.excore of the copy finds exactly the copy's own ex-core children (the pool under 'sfp')",
+                      len(cp.excore) == len(pools) and all(cp.excore.get("sfp") is x for x in pools))
+        ctx.check("reactor.excore of the original still finds the original's pool",
+                  len(r.excore) == (1 if sS else 0) and (sfp is None or r.excore.get("sfp") is sfp))
     if c2 is not None:
         ctx.check("reactor.core is the copied core", what != "reactor" or (c2 is cp[0] and c2.parent is cp))
         ctx.check("the core's location table maps to the NEW assemblies",
@@ -1607,18 +1908,37 @@ def forest_from(root):
     return F
 
 
-@harness("C01", bounds="mini reactor: Reactor > Core (third-core hex grid) > 1..2 assemblies (symbolic) > block "
-                       "(with or without a pin grid, symbolic Bool) > components; one operation: Core.add of a fresh assembly at one of 4 cells (symbolic; an "
-                       "occupied cell must be refused) / Core.removeAssembly of any assembly", stubs=STUBS,
+# Candidate defect (reported by an independent engineer, confirmed here; kept out of the green check by the flag): the
+# repair d52af37 moved only the occupied-cell refusal in front of Composite.add.  Core.add still raises
+#  - LookupError for a cell outside the represented symmetry domain AFTER Composite.add attached the assembly
+#    (afterwards: a.parent is core, a in core, not in core.childrenByLocator, a's location detached), and
+#  - RuntimeError "already contains an assembly with the same name" after attaching, moving and registering it in
+#    childrenByLocator (afterwards the core has two children of that name; assembliesByName knows the old one).
+# Repro: r, core = mini reactor with a third-core HexGrid; a = HexAssembly(...);
+#        core.add(a, core.spatialGrid[-1, 0, 0]) -> LookupError, but a in core and a.parent is core.
+#        a2.renumber(existing.p.assemNum); core.add(a2, core.spatialGrid[1, 1, 0]) -> RuntimeError, but a2 in core.
+# While the flag is set these operands are skipped; VERIF_SHOW_KNOWN_DEFECTS=1 shows the violations.
+KNOWN_DEFECT_core_add_refused_after_attach = False  # repaired in /repo (fix: 7fd460f)
+OUTSIDE = [(-1, 0), (0, -1)]      # cells of the hex grid that lie outside the third-core domain (120 degree sector)
+
+CORE_BOUNDS = ("mini reactor: Reactor > Core (third-core hex grid) > 1..2 assemblies (symbolic) > block (with or without "
+               "a pin grid, symbolic Bool) > components, with or without a spent fuel pool next to the core (symbolic "
+               "Bool); one operation: Core.add of a fresh assembly at one of 4 cells of the domain or 2 cells outside it, "
+               "optionally carrying the name of an assembly of the core (symbolic; an occupied cell, a cell outside the "
+               "domain and a duplicate name must be refused without effect) / Core.removeAssembly of any assembly, "
+               "discharge flag and assembly tracking symbolic (tracked discharge with a pool: the assembly moves into "
+               "the pool, which may hand it out again (symbolic Bool); otherwise it leaves the model)")
+
+
+@harness("C01", bounds=CORE_BOUNDS, stubs=STUBS,
          instances={"quick": [dict(op="add"), dict(op="removeAssembly")]})
 def core_edit_step(ctx, op):
     _core_step(ctx, op, None)
 
 
-@harness("C01", bounds="mini reactor as in core_edit_step, copied as a whole (deepcopy / pickle round trip of the "
-                       "Reactor), then one operation on the COPIED core: Core.add of a fresh assembly at one of 4 cells "
-                       "(symbolic; an occupied cell must be refused) / Core.removeAssembly of any assembly; the "
-                       "original reactor must stay wired", stubs=STUBS,
+@harness("C01", bounds="as core_edit_step, but the reactor is first copied as a whole (deepcopy / pickle round trip of "
+                       "the Reactor) and the operation is applied to the COPIED core; the original reactor must stay "
+                       "wired. " + CORE_BOUNDS, stubs=STUBS,
          instances={"quick": [dict(op=o, how=h) for o in ("add", "removeAssembly") for h in ("deepcopy", "pickle")]})
 def core_copy_then_edit(ctx, op, how):
     _core_step(ctx, op, how)
@@ -1626,9 +1946,25 @@ def core_copy_then_edit(ctx, op, how):
 
 def _core_step(ctx, op, how):
     nS = ctx.int("nassemblies", 1, 2)
-    xS = ctx.int("operand", 0, 3)
+    xS = ctx.int("operand", 0, 5)
     pS = ctx.bool("blocks have a pin grid")
+    sS = ctx.bool("the reactor has a spent fuel pool")
+    sameS = ctx.bool("add: the new assembly carries the name of an assembly of the core")
+    disS = ctx.bool("removeAssembly: discharge")
+    trS = ctx.bool("removeAssembly: assemblies are tracked")
+    relS = ctx.bool("removeAssembly: the pool hands an assembly it received out again (pool.remove)")
+    ctx.assume(IMPLIES(relS, AND(sS, disS, trS)))
+    if op == "add":
+        ctx.assume(NOT(OR(disS, trS)))
+        if KNOWN_DEFECT_core_add_refused_after_attach and _HIDE:
+            ctx.assume(AND(xS < len(CELLS), NOT(sameS)))
+    else:
+        ctx.assume(NOT(sameS))
+        if KNOWN_DEFECT_excore_table_lost_by_deepcopy and _HIDE and how == "deepcopy":
+            ctx.assume(NOT(AND(sS, disS, trS)))     # the copied reactor does not find its pool
     r, core, assems = _build.mk_core([(0, 0), (1, 0)][:int(nS)], nblocks=1)
+    if sS:
+        add_pool(r)
     if pS:
         for x in assems:
             for y in x:
@@ -1640,14 +1976,18 @@ def _core_step(ctx, op, how):
         ctx.check(how + ": the copied reactor has the shape of the original", shape_rc(r) == shape_rc(r0))
         core = r.core
         ctx.check(how + ": reactor.core of the copy is the copy's first child, not the original core",
-                  core is not core0 and len(r) == 1 and core is r[0])
+                  core is not core0 and len(r) == (2 if sS else 1) and core is r[0])
         assems = list(core)
+    pool = next((x for x in r if isinstance(x, SpentFuelPool)), None)
     F = forest_from(r)
     ci = F.idx(core)
     gone = []
     if op == "add":
-        cell = CELLS[int(xS)]
+        cell = (CELLS + OUTSIDE)[int(xS)]
         new = _build.mk_assembly(1)
+        same = bool(sameS)
+        if same:
+            new.renumber(int(assems[0].p.assemNum))
         ni = len(F.objs)
         sub = forest_from(new)
         occupied = cell == (1, 0) and int(nS) == 2
@@ -1656,9 +1996,10 @@ def _core_step(ctx, op, how):
         try:
             core.add(new, core.spatialGrid[cell[0], cell[1], 0])
             refused = False
-        except (ValueError, KeyError):
+        except (ValueError, LookupError, RuntimeError):
             refused = True
-        ctx.check("adding at an occupied cell is refused, and only then", refused == occupied)
+        ctx.check("adding at an occupied cell, at a cell outside the represented domain or under the name of an "
+                  "assembly of the core is refused, and only then", refused == (occupied or cell in OUTSIDE or same))
         for k, o in enumerate(sub.objs):
             F.new(o)
         for k, o in enumerate(sub.objs):
@@ -1671,26 +2012,54 @@ def _core_step(ctx, op, how):
             if ctx.canary:
                 ok = AND(ok, NOT(AND(nS == 1, xS == 2)))
             ctx.check("the new assembly sits at the requested cell of the core's grid", ok)
+            ctx.check("the core finds the new assembly by its name", core.assembliesByName.get(new.getName()) is new)
         else:
             ctx.check("a refused add leaves the assembly out of the core", new.parent is None and new not in core)
+            ctx.check("a refused add leaves the assembly out of the core's tables, which still find the old ones",
+                      not any(v is new for v in core.childrenByLocator.values()) and
+                      not any(v is new for v in core.assembliesByName.values()) and
+                      all(core.assembliesByName.get(x.getName()) is x for x in assems))
     else:
         ctx.assume(int(xS) < int(nS))
         a = assems[int(xS)]
         gi = F.idx(a)
-        core.removeAssembly(a)
+        locBefore = snapshot_locations(F.objs, [gi])
+        core._trackAssems = bool(trS)
+        core.removeAssembly(a, discharge=bool(disS))
         F.detach(gi)
-        gone = [gi]
-        ok = a.parent is None and a.spatialLocator.grid is None
-        if ctx.canary:
-            ok = AND(ok, NOT(AND(nS == 2, xS == 0)))
-        ctx.check("the removed assembly has no parent and a detached location", ok)
+        rare = AND(nS == 2, xS == 0)
+        if bool(disS) and bool(trS) and pool is not None:
+            # documented: a tracked, discharged assembly is put into the spent fuel pool
+            F.attach(F.idx(pool), gi)
+            ok = a.parent is pool and a.spatialLocator.grid is pool.spatialGrid
+            if ctx.canary:
+                ok = AND(ok, NOT(rare))
+            ctx.check("a tracked discharged assembly is the pool's child, located in the pool's grid", ok)
+            ctx.check("the core no longer lists or locates it",
+                      a not in core and not any(v is a for v in core.childrenByLocator.values()))
+            if relS:                    # forks; the way a fuel handler pulls an assembly out of the pool
+                locBefore = snapshot_locations(F.objs, [gi])
+                pool.remove(a)
+                F.detach(gi)
+                gone = [gi]
+                check_taken_out(ctx, F, gone, F.idx(pool), locBefore, "pool.remove")
+        else:
+            gone = [gi]
+            check_taken_out(ctx, F, gone, ci, locBefore, op, rare)
+            if not (bool(disS) and bool(trS)):
+                ctx.check("the core's name tables no longer know an assembly that left the model, nor its blocks",
+                          not any(v is a for v in core.assembliesByName.values()) and
+                          not any(v is y for v in core.blocksByName.values() for y in a))
         ctx.check("the removed assembly keeps its blocks", same_objs(walk_pre(a), [F.objs[k] for k in F.subtree(gi)[1:]]))
     check_forest(ctx, F, op)
     check_deep(ctx, r, op)
-    ctx.check("every grid (core, assemblies, pin grids) points at its owner and locates that owner's children",
+    ctx.check("every grid (core, pool, assemblies, pin grids) points at its owner and locates that owner's children",
               all(x.spatialGrid.armiObject is x and all(l.grid is x.spatialGrid for c in x
                                                         for l in loc_cells(c.spatialLocator))
                   for x in F.objs if x.spatialGrid is not None))
+    ctx.check("an object without a parent is located in nobody's grid (no cell of a multi-cell location either)",
+              all(l.grid is None for i, x in enumerate(F.objs) if F.par[i] is None and x.spatialLocator is not None
+                  for l in loc_cells(x.spatialLocator)))
     ctx.check("the core's location table lists exactly its children",
               len(core.childrenByLocator) == len(core) and
               all(core.childrenByLocator.get(x.spatialLocator) is x for x in core))
